@@ -5,6 +5,8 @@ mod link;
 mod oracle;
 mod props;
 mod refcodec;
+mod scriptio;
+mod socks;
 mod solo;
 
 fn main() {
